@@ -304,8 +304,8 @@ void run_width(const Case &c, pbt::Ctx &ctx) {
                 ctx.fail("surrounding-text-changed", "text around the unresolved tag changed: " + jm::show(out));
             }
             check_escaped(tag, seg, "echoed source of an unresolved {var:}", ctx, on);
-            // the same unresolved tag as the sub tag of a super variable (phrase "<{0}>": the phrase text is escaped too)
-            {
+            // the same unresolved tag as the sub tag of a super variable (phrase "({0})")
+            if (name != ascii("pq")) { // (the phrase's own name would resolve)
                 jm::Buf<Char_T> qb(ascii("pq"));
                 v[StringView<Char_T>{qb.cp(), 2}] = mk<Char_T>(ascii("({0})"));
                 Units whole = cat({ascii("{svar:pq, "), tag, ascii("}")});
@@ -333,6 +333,9 @@ void run_width(const Case &c, pbt::Ctx &ctx) {
 Units gen_string(Entropy &e, int width) {
     Units    s;
     unsigned n = e.below(14);
+    if (e.chance(15)) {
+        n = 14 + e.below(90); // long enough to cross whatever block size a scanner may work in (8, 16, 32, 64 units), specials anywhere
+    }
     for (unsigned i = 0; i < n; ++i) {
         switch (e.below(10)) {
             case 0:
@@ -365,7 +368,7 @@ struct H {
     static const char *name() { return "C03 HTML escaping"; }
     static rc::Gen<Case> gen() {
         using namespace rc;
-        return gen::map(gen::tuple(gen::resize(60, gen::container<std::vector<uint8_t>>(gen::arbitrary<uint8_t>())), pbt::range<int>(0, 5), pbt::pick<int>({1, 1, 2, 4, 3})),
+        return gen::map(gen::tuple(gen::resize(250, gen::container<std::vector<uint8_t>>(gen::arbitrary<uint8_t>())), pbt::range<int>(0, 5), pbt::pick<int>({1, 1, 2, 4, 3})),
                         [](std::tuple<std::vector<uint8_t>, int, int> t) { return make_case(std::get<0>(t), std::get<1>(t), std::get<2>(t)); });
     }
     static Case make_case(const std::vector<uint8_t> &bytes, int position, int width) {
